@@ -262,6 +262,7 @@ MUTANTS = [
     ('C01', 'lattice_lib.py', '    final_projection = final_projection * scale + offset\n', '    final_projection = (final_projection - output_min) * scale + offset + output_min * scale\n', 'R2', 'kernel translated by the bound before scaling'),
     ('C16', 'lattice_lib.py', '    if not monotonicities or monotonicities[main_dim] != 1:', '    if monotonicities[main_dim] != 1:', 'N1', 'subscript of possibly-None monotonicities'),
     ('C16', 'lattice_lib.py', '      list(edgeworth_trusts or []) + list(trapezoid_trusts or [])) or []', '      (edgeworth_trusts or []) + (trapezoid_trusts or [])) or []', 'T3', 'tuple trusts concatenated with a list'),
+    ('C16', 'lattice_lib.py', '    if dominant_dim == weak_dim:\n      raise ValueError("%s dominance constraint must relate two different "', '    if dominant_dim == -1:\n      raise ValueError("%s dominance constraint must relate two different "', 'V9', 'degenerate dominance pair accepted'),
     ('C17', 'premade_lib.py', '        # going out of bound on the lattice\n        addition_score = -2.0',
      '        # going out of bound on the lattice\n        addition_score = -1.0', 'W7', 'full lattice ties with a repeat'),
     ('C17', 'premade_lib.py', '        # going out of bound on the lattice\n        addition_score = -2.0',
